@@ -130,6 +130,31 @@ type runOutcome struct {
 	}
 	undecided []instance
 	vacuous   []string
+	lost      []string // trigger anchors that no longer resolve (one per rule that gave up)
+}
+
+// safeRule runs one rule; a lost trigger anchor ends that rule only (the other rules of the property still run, so that
+// a violation they find is reported; without one the property cannot be decided).
+func safeRule(rf func(*Ctx) *rule, c *Ctx, out *runOutcome) (r *rule) {
+	defer func() {
+		if x := recover(); x != nil {
+			al, ok := x.(anchorLost)
+			if !ok {
+				panic(x)
+			}
+			dup := false
+			for _, l := range out.lost {
+				if l == al.what {
+					dup = true
+				}
+			}
+			if !dup {
+				out.lost = append(out.lost, al.what)
+			}
+			r = nil
+		}
+	}()
+	return rf(c)
 }
 
 // usesEntryConditions: rules outside engine E1 that select their call sites by the option flags under which they are reached.
@@ -141,7 +166,7 @@ func evaluate(prop *propertySpec, ctxs []*Ctx, known *knownFile) *runOutcome {
 	for _, c := range ctxs {
 		for _, rf := range prop.Rules {
 			c.xIndex = 0
-			r := rf(c)
+			r := safeRule(rf, c, out)
 			if r == nil {
 				continue
 			}
@@ -153,7 +178,7 @@ func evaluate(prop *propertySpec, ctxs []*Ctx, known *knownFile) *runOutcome {
 				}
 				for xi := 1; xi < len(xs); xi++ {
 					c.xIndex = xi
-					ri := rf(c)
+					ri := safeRule(rf, c, out)
 					if ri == nil {
 						continue
 					}
